@@ -255,7 +255,7 @@ class C12(Prop):
             'Non-trivial: accepted program with >=5 statements or an f-string, decorator, global/nonlocal, yield/await, starred '
             'expression, walrus, lambda, comprehension or annotation. Distinct by (text, version).')
     assumptions = ['CPython compile() is the reference for validity', 'listed findings F-C12-* are matched by signature']
-    budgets = {'quick': 16000, 'thorough': 300000}
+    budgets = {'quick': 16000, 'thorough': 1200000}
     min_nontrivial_fraction = 0.05
 
     def teardown_shard(self):
